@@ -696,11 +696,29 @@ def check_c14(res, tier, replay):
     else:
         cases = [c for c in gen_strat_cases(rng, tier, per=(4 if tier == 'quick' else 30))
                  if len(c[3]['c']) > strat_idle(c[0], c[1])]
+        # non-default configurations on series longer than their warm-up (the generic generator above mostly yields
+        # short series for them)
+        for name in SCAT:
+            for j in range(3 if tier == 'quick' else 12):
+                ns, fs = SCAT[name]['cfg'](rng, 8 if j % 2 else 20)
+                ns, fs = list(ns), list(fs)
+                w = strat_idle(name, ns)
+                o, regime = gen_ohlcv(rng, w + rng.choice([1, 2, 5, 17, 40]), REGIMES[(j * 5 + len(name)) % len(REGIMES)])
+                cases.append((name, ns, fs, o, regime))
         for wname in WRAPPED:
             for _ in range(2 if tier == 'quick' else 10):
                 o, regime = gen_ohlcv(rng, rng.randrange(12, 80))
                 cases.append((wname, [], [], o, regime))
-    rlines = ['r%d %s' % (i, strat_line(c[0], c[1], c[2], c[3]).replace('STRAT', 'REPORT', 1)) for i, c in enumerate(cases)]
+    # every 4th case carries one snapshot whose Date is the zero time (e.g. an unparsed CSV date): still one row per snapshot
+    zero_at = {}
+    if not replay:
+        for i, c in enumerate(cases):
+            if i % 4 == 3 and len(c[3]['c']) > 0:
+                zero_at[i] = rng.randrange(len(c[3]['c']))
+    else:
+        zero_at = {i: z for i, z in enumerate(json.load(open(replay)).get('zero_dates', [])) if z is not None and z >= 0}
+    rlines = ['r%d %s' % (i, strat_line(c[0], c[1], c[2], c[3]).replace('STRAT', 'REPORT', 1) if i not in zero_at else
+                          strat_line(c[0], c[1], c[2], c[3]).replace('STRAT', 'REPORTZ', 1) + ' %d' % zero_at[i]) for i, c in enumerate(cases)]
     slines = ['s%d %s' % (i, strat_line(c[0], c[1], c[2], c[3])) for i, c in enumerate(cases) if ':' not in c[0]]
     go = vlib.run_go(rlines + slines)
     bad = 0
@@ -720,7 +738,8 @@ def check_c14(res, tier, replay):
         dates, cols = rep
         problems = []
         d = n - len(dates)
-        if d < 0 or dates != list(range(d, n)):
+        want_dates = [(-1 if zero_at.get(i) == k else k) for k in range(n)]
+        if d < 0 or dates != want_dates[d:]:
             problems.append('date axis is not a suffix of the snapshot dates: %s…' % dates[:5])
         for (cn, typ, vals) in cols:
             stats['columns'] += 1
@@ -781,7 +800,7 @@ def check_c14(res, tier, replay):
                 known[name] += 1
                 continue
             bad += 1
-            res.violation({'case': case_json(c), 'problems': problems, 'columns': [(cn, len(v)) for cn, _, v in cols], 'dates': len(dates),
+            res.violation({'case': case_json(c), 'cases': [case_json(c)], 'zero_dates': [zero_at.get(i, -1)], 'problems': problems, 'columns': [(cn, len(v)) for cn, _, v in cols], 'dates': len(dates),
                            'oracle': 'one value per date in every column; close / annotation / outcome / indicator values are those of the row date'})
     for comp, f in findings.items():
         if known.get(comp):
